@@ -405,7 +405,7 @@ fn classify(stmts: &[String]) -> &'static str {
     "c01:unsound"
 }
 
-fn judge(ctx: &numbat::Context, out: &mut Out, stmts: &[String], checked: &[String], tags: &[String]) {
+fn judge(ctx: &numbat::Context, units: &Units, out: &mut Out, stmts: &[String], checked: &[String], tags: &[String]) {
     let o = run_program(ctx, stmts, checked);
     let text = format!("prog {}", stmts.join(" ;; "));
     if !o.accepted {
@@ -428,8 +428,19 @@ fn judge(ctx: &numbat::Context, out: &mut Out, stmts: &[String], checked: &[Stri
         let input = format!("prog {}", small.join(" ;; "));
         out.oracle_fail(&format!("{}:{}", classify(&small), input), &input, &what);
     }
-    // model stream: dimension of raw units as the Lean model computes them from the unit table
-    let _ = o.raw_units;
+    // model stream: the base-unit representation (dimension vector in canonical form) of every raw unit, as
+    // the Lean model computes it from the unit table, against the implementation's
+    for u in &o.raw_units {
+        if let Some(fs) = parse_unit(u) {
+            if fs.iter().all(|f| units.index.contains_key(&f.unit)) && out.extra.len() < 4000 {
+                if out.extra.insert(format!("seen:{}", u), String::new()).is_none() {
+                    let qd = q(0x3ff0000000000000, fs);
+                    let ans = canon_nan(&ctx.verif_quantity_op("baserep", &qd, None));
+                    out.line(&format!("baserep {}", q_text(&qd)), &ans);
+                }
+            }
+        }
+    }
 }
 
 fn main() {
@@ -438,15 +449,32 @@ fn main() {
     out.rule = "multi-statement programs (3-10 statements) generated type-directed over the prelude: let-bindings of expression trees (units in any alias/prefix spelling, + - * / neg, conversions, conditionals with comparisons incl. a polymorphic zero on either side, references to earlier globals, calls), powers with compile-time evaluated exponents (integer, fractional, composite arithmetic) followed by an addition at the statically computed exponent, inferred and annotated generic functions, where-clauses, generic structs with field access, lists with head/sum/maximum/mean/map/element_at, dimension and derived-unit definitions with annotated lets; plus the corpus (known-defect shapes). distinct = program text; non-trivial = at least two statements and accepted by the checker".into();
     let ctx = prelude_ctx();
     let units = Units::load(&ctx);
+    units.emit(&mut out);
+    // one base unit per base dimension (the typing relation of the model identifies the two)
+    {
+        let ut: BTreeMap<String, String> = ctx.verif_unit_types().into_iter().collect();
+        let mut seen = BTreeMap::new();
+        let mut ok = true;
+        for r in units.rows.iter().filter(|r| r.is_base) {
+            let t = ut.get(&r.name).cloned().unwrap_or_default();
+            let single = parse_dim(&t).map(|d| d.len() == 1 && d.values().all(|v| *v == (1, 1))).unwrap_or(false);
+            if !single || seen.insert(t.clone(), r.name.clone()).is_some() { ok = false; }
+        }
+        out.extra.insert("one_base_unit_per_base_dimension".into(), ok.to_string());
+        if !ok {
+            out.oracle_fail("c01:base-units", "prelude", "two base units share a base dimension (or a base unit has a compound type): same-dimension conversions can fail");
+        }
+    }
     let run_line = |l: &str, out: &mut Out| {
         if let Some(rest) = l.strip_prefix("prog ") {
             let stmts: Vec<String> = rest.split(" ;; ").map(|s| s.to_string()).collect();
             let checked: Vec<String> = stmts.iter().filter_map(|s| s.strip_prefix("let ").map(|r| r.split(|c| c == ':' || c == ' ' || c == '=').next().unwrap_or("").to_string())).collect();
-            judge(&ctx, out, &stmts, &checked, &["corpus".to_string()]);
+            judge(&ctx, &units, out, &stmts, &checked, &["corpus".to_string()]);
         }
     };
     if let Some(p) = &args.replay {
         for l in read_lines(p) { run_line(&l, &mut out); }
+        out.extra.retain(|k, _| !k.starts_with("seen:"));
         out.finish();
         return;
     }
@@ -465,7 +493,8 @@ fn main() {
         let (stmts, checked, mut tags) = (g.stmts, g.checked, g.tags);
         tags.sort();
         tags.dedup();
-        judge(&ctx, &mut out, &stmts, &checked, &tags);
+        judge(&ctx, &units, &mut out, &stmts, &checked, &tags);
     }
+    out.extra.retain(|k, _| !k.starts_with("seen:"));
     out.finish();
 }
